@@ -8,7 +8,7 @@ SPEC = {
         {"pkg": "internal/system", "test": "TestVerifC10link", "newgo": True, "timeout": 900, "corr_module": "Corr.C10link"},
     ],
     "rule": "(a) every fault class {read error: syscall / permission / other, 5 consecutive timeouts, failing scheduled write: "
-            "syscall / permission / other, link event, watcher channel closed} injected into a running Advertiser and Monitor "
+            "syscall / permission / other, a scheduled RA that cannot be generated (a plugin's Apply fails), link event, watcher channel closed} injected into a running Advertiser and Monitor "
             "under testing/synctest, with 0..40 (thorough: up to 100) solicitations queued at the fault instant and, for write "
             "faults with >=17 of them, another transmission blocked in WriteTo so that the request channel fills while the "
             "scheduler is waiting; observed: reaction (re-dial / return error / continue), its virtual delay, I/O on the old "
